@@ -180,3 +180,9 @@ macro_rules! transposing_joiner {
 #[macro_export]
 macro_rules! log_try_join { ($($b:expr),+) => {{ $crate::support::ev($crate::support::code($crate::support::K_JOINER, 0, 0, 0 $(+ { let _ = stringify!($b); 1 })+)); ::futures::try_join!($($b),+) }}; }
 pub use crate::{lazy_joiner, transposing_joiner, value_joiner};
+
+/// native sweeps of the tokio-spawning macros
+#[cfg(all(not(kani), feature = "tokio_rt"))]
+pub fn block_on_tokio<F: core::future::Future>(f: F) -> F::Output {
+    tokio::runtime::Builder::new_multi_thread().worker_threads(3).enable_all().build().unwrap().block_on(f)
+}
